@@ -37,7 +37,7 @@ var (
 	EditToolchains = []string{"go1.21.0", "go1.22.1", "default"}
 	EditModules    = []string{"m.com/m", "n.com/n"}
 	// replacement targets: directories have no version
-	EditTargets = [][2]string{{"../x", ""}, {"../y", ""}, {"e.com/fork", "v1.0.0"}, {"e.com/fork", "v1.1.0"}, {"../z//w", ""}, {"./sp ace", ""}}
+	EditTargets = [][2]string{{"../x", ""}, {"../y", ""}, {"e.com/fork", "v1.0.0"}, {"e.com/fork", "v1.1.0"}, {"../z//w", ""}, {"./sp ace", ""}, {".", ""}, {"..", ""}}
 )
 
 // EditLine describes one directive line of a generated file.
